@@ -8,12 +8,21 @@
       translated expression, in every environment with the same variables, for every fuel at
       least as large; neither side changes the environment. *)
 From Coq Require Import List String Bool ZArith Lia.
+Local Open Scope string_scope.
 From MambaModel Require Import model.Core gen.Names model.SemDom model.Convert model.PySem model.PyEval model.MEval.
 Import ListNotations.
 
 Definition pure_op (o : nbin) : bool :=
   match nbin_sop o with Some _ => true | None => match o with SAnd | SOr => true | _ => false end end.
 Definition is_sqrt (o : nun) : bool := match o with SSqrt => true | _ => false end.
+
+(** the step of an INCLUSIVE range must be absent or a positive integer literal (with a negative step the emitted
+    end is wrong: finding D71) *)
+Definition positive_literal (a : ast) : bool :=
+  match a with
+  | A _ (NInt s) => match z_of_string s with Some z => Z.ltb 0 z | None => false end
+  | _ => false
+  end.
 
 Fixpoint pure (a : ast) : bool :=
   match a with A _ nd =>
@@ -26,6 +35,12 @@ Fixpoint pure (a : ast) : bool :=
   | NBin o l r => pure_op o && pure l && pure r
   | NUn o x => negb (is_sqrt o) && pure x
   | NIndex x y => pure x && pure y
+  | NRange from to incl step =>
+      pure from && pure to
+      && match step with
+         | None => true
+         | Some st => pure st && (negb incl || positive_literal st)
+         end
   | _ => false
   end end.
 
@@ -40,6 +55,10 @@ Fixpoint tr (b : bool) (a : ast) : core :=
   | NBin o l r => bin_core o (tr b l) (tr b r)
   | NUn o x => un_core o (tr b x)
   | NIndex x y => Index (tr b x) (tr b y)
+  | NRange from to incl step =>
+      FunctionCall (Id n_range)
+        [tr b from; if incl then Bin CbAdd (tr b to) (Int "1") else tr b to;
+         match step with Some st => tr b st | None => Int "1" end]
   | _ => Empty
   end end.
 
@@ -131,11 +150,19 @@ Lemma cexpr_un g o x ep :
     end.
 Proof. destruct o; cbn; intro H; try discriminate H; reflexivity. Qed.
 
-Theorem pure_sim : forall f a, pure a = true -> forall b g, f <= g -> Sim f g b a.
+Lemma cexpr_range g a1 a2 a3 ep :
+  cexpr (S g) (FunctionCall (Id n_range) [a1; a2; a3]) ep
+  = match eval_list (cexpr g) [a1; a2; a3] ep with
+    | (inl vs, e1) => (mk_range vs, e1)
+    | (inr x, e1) => (inr x, e1)
+    end.
+Proof. reflexivity. Qed.
+
+Theorem pure_sim : forall f a, pure a = true -> forall b g, 2 * f <= g -> Sim f g b a.
 Proof.
   induction f as [|f IH]; intros a Hp b g Hg em ep R.
   { cbn. left. reflexivity. }
-  destruct g as [|g]; [lia|]. assert (Hg' : f <= g) by lia.
+  destruct g as [|g]; [lia|]. assert (Hg' : 2 * f <= g) by lia.
   destruct a as [ty nd]. destruct nd; cbn [pure] in Hp; try discriminate Hp.
   - (* NInt *) cbn. destruct (z_of_string s); cbn; [split; reflexivity | left; reflexivity].
   - (* NStr *) destruct interpolated; [discriminate Hp|]. cbn.
@@ -212,6 +239,65 @@ Proof.
       * destruct Sr as [-> Cr]. rewrite Cr. apply rel_of_result.
       * destruct Sr as [I | [-> Cr]]; [left; exact I | right; rewrite Cr; split; reflexivity].
     + destruct Si as [I | [-> Ci]]; [left; exact I | right; rewrite Ci; split; reflexivity].
+  - (* NRange *)
+    apply andb_true_iff in Hp. destruct Hp as [Hp Hstep]. apply andb_true_iff in Hp. destruct Hp as [Hfrom Hto].
+    destruct g as [|g1]; [lia|]. assert (Hg1 : 2 * f <= g1) by lia.
+    pose proof (IH from Hfrom b (S g1) Hg' em ep R) as Sf.
+    pose proof (IH to Hto b g1 Hg1 em ep R) as St1.
+    pose proof (IH to Hto b (S g1) Hg' em ep R) as St.
+    cbn [tr]. rewrite cexpr_range.
+    cbn [mev_dev mev1]. cbn [eval_list]. unfold mval at 1.
+    destruct (mev0 f from em) as [[va|] e1 | v e1 | x e1 | e1 | e1] eqn:Ef; cbv beta iota delta [Rel] in Sf; try contradiction.
+    2:{ destruct Sf as [I | [-> Cf]]; [left; exact I | right; rewrite Cf; split; reflexivity]. }
+    destruct Sf as [-> Cf]. rewrite Cf.
+    assert (Hf1 : exists f', f = S f').
+    { destruct f as [|f']; [cbn in Ef; discriminate Ef | exists f'; reflexivity]. }
+    destruct Hf1 as [f' ->].
+    unfold mval at 1.
+    destruct (mev0 (S f') to em) as [[vb|] e2 | v e2 | x e2 | e2 | e2] eqn:Et; cbv beta iota delta [Rel] in St, St1; try contradiction.
+    2:{ (* the end raises *)
+        destruct incl.
+        - rewrite (cexpr_bin_strict g1 CbAdd OAdd _ _ ep eq_refl).
+          destruct St1 as [I | [-> Ct]]; [left; exact I | right; rewrite Ct; split; reflexivity].
+        - destruct St as [I | [-> Ct]]; [left; exact I | right; rewrite Ct; split; reflexivity]. }
+    destruct St as [-> Ct]. destruct St1 as [_ Ct1].
+    (* the value of the emitted second argument *)
+    destruct (incl && negb match vb with VInt _ => true | _ => false end) eqn:Eguard; [apply rel_unsup|].
+    assert (Harg2 : exists vb', cexpr (S g1) (if incl then Bin CbAdd (tr b to) (Int "1") else tr b to) ep = (inl vb', ep)
+                                /\ (forall zb, vb = VInt zb -> vb' = VInt (if incl then zb + 1 else zb)%Z)
+                                /\ (forall zb, vb' = VInt zb -> exists z0, vb = VInt z0)).
+    { destruct incl.
+      - cbn in Eguard. destruct vb; try discriminate Eguard.
+        exists (VInt (z + 1)%Z). rewrite (cexpr_bin_strict g1 CbAdd OAdd _ _ ep eq_refl), Ct1.
+        assert (Hone : cexpr g1 (Int "1") ep = (inl (VInt 1), ep)) by (destruct g1 as [|g2]; [lia | reflexivity]).
+        rewrite Hone. split; [reflexivity|]. split; [intros zb E; injection E as <-; reflexivity | intros zb _; eexists; reflexivity].
+      - exists vb. rewrite Ct. split; [reflexivity|]. split; [intros zb E; exact E | intros zb E; exists zb; exact E]. }
+    destruct Harg2 as [vb' [C2 [Hvb Hvb2]]]. rewrite C2.
+    (* the step *)
+    destruct step as [st|].
+    + apply andb_true_iff in Hstep. destruct Hstep as [Hst Hpos].
+      pose proof (IH st Hst b (S g1) Hg' em ep R) as Ss.
+      unfold mval.
+      destruct (mev0 (S f') st em) as [[vs|] e3 | v e3 | x e3 | e3 | e3] eqn:Es; cbv beta iota delta [Rel] in Ss; try contradiction.
+      2:{ destruct Ss as [I | [-> Cs]]; [left; exact I | right; rewrite Cs; split; reflexivity]. }
+      destruct Ss as [-> Cs]. rewrite Cs. cbn [mk_range].
+      destruct va as [za| | | | | | | |]; try apply rel_unsup.
+      destruct vb as [zb| | | | | | | |]; try apply rel_unsup.
+      destruct vs as [zs| | | | | | | |]; try apply rel_unsup.
+      rewrite (Hvb zb eq_refl).
+      destruct (Z.eqb zs 0) eqn:Ez; [apply rel_unsup|].
+      cbn [andb]. split; [reflexivity|]. f_equal. f_equal. f_equal.
+      unfold range_end. destruct incl; [|reflexivity].
+      cbn [negb orb] in Hpos. destruct st as [sty snd]; destruct snd; try discriminate Hpos.
+      cbn [positive_literal] in Hpos. cbn in Es.
+      destruct (z_of_string s) as [z|]; [|discriminate Hpos].
+      injection Es as <-. rewrite Hpos. reflexivity.
+    + assert (Hone : cexpr (S g1) (Int "1") ep = (inl (VInt 1), ep)) by reflexivity.
+      rewrite Hone. cbn [mk_range].
+      destruct va as [za| | | | | | | |]; try apply rel_unsup.
+      destruct vb as [zb| | | | | | | |]; try apply rel_unsup.
+      rewrite (Hvb zb eq_refl). cbn [Z.eqb andb].
+      split; [reflexivity|]. unfold range_end. destruct incl; reflexivity.
   - (* NExprType *)
     cbn [tr mev_dev mev1].
     apply (IH e Hp b (S g)); [lia | exact R].
@@ -276,6 +362,14 @@ Proof.
     apply andb_true_iff in Hp. destruct Hp as [Hi Hr].
     unfold bind, ret.
     rewrite (IH item ltac:(lia) Hi st i Pst), (IH range ltac:(lia) Hr st i Pst). reflexivity.
+  - (* NRange *)
+    apply andb_true_iff in Hp. destruct Hp as [Hp Hstep]. apply andb_true_iff in Hp. destruct Hp as [Hfrom Hto].
+    unfold bind, ret.
+    rewrite (IH from ltac:(lia) Hfrom st i Pst), (IH to ltac:(lia) Hto st i Pst).
+    destruct step as [sp|].
+    + apply andb_true_iff in Hstep. destruct Hstep as [Hsp _].
+      cbn [sizeo] in Hn. rewrite (IH sp ltac:(lia) Hsp st i Pst). reflexivity.
+    + reflexivity.
   - (* NExprType *)
     unfold bind, ret.
     rewrite (IH e ltac:(lia) Hp (with_expand st true) i ltac:(destruct st; cbn in *; split; assumption)).
@@ -285,7 +379,7 @@ Qed.
 (** ** The two halves together, stated on [conv] itself *)
 Theorem pure_expr_correct a st i c i' :
   pure a = true -> plain st -> conv a st i = Some (c, i') ->
-  i' = i /\ forall f g em ep, f <= g -> env_rel em ep -> Rel em ep (mev f a em) (cexpr g c ep).
+  i' = i /\ forall f g em ep, 2 * f <= g -> env_rel em ep -> Rel em ep (mev f a em) (cexpr g c ep).
 Proof.
   intros Hp Hs Hc. rewrite (conv_pure (size a) a (le_n _) Hp st i Hs) in Hc.
   injection Hc as <- <-. split; [reflexivity|].
@@ -319,5 +413,19 @@ Example sample_pure_ok :
 Proof.
   split; [reflexivity|]. split; [split; reflexivity|]. split; [intro x; reflexivity|].
   split; [vm_compute; reflexivity|].
+  eexists. split; [vm_compute; reflexivity | vm_compute; reflexivity].
+Qed.
+
+(** an inclusive stepped range inside a membership test: [4 in 0 ..= 4 .. 2] *)
+Definition sample_range : ast :=
+  let lit s := A None (NInt s) in
+  A None (NBin SIn (lit "4") (A None (NRange (lit "0") (lit "4") true (Some (lit "2"))))).
+Example sample_range_ok :
+  pure sample_range = true
+  /\ mev 10 sample_range (@env0 ast) = MVal (Some (VBool true)) env0
+  /\ exists c, conv sample_range (state0 true) imports0 = Some (c, imports0)
+               /\ cexpr 20 c (@env0 core) = (inl (VBool true), env0).
+Proof.
+  split; [reflexivity|]. split; [vm_compute; reflexivity|].
   eexists. split; [vm_compute; reflexivity | vm_compute; reflexivity].
 Qed.
